@@ -312,6 +312,15 @@ def r23(ctx):
             ok = all(got.get(v) == f for v, f in fields.items())
             ctx.check(ok, rule, '%s|reclaimed-field' % fn_b.path, fn_b.where(), '%s reports the length of the affected file of each variant' % nm, '%s reads %s, expected %s' % (nm, got, fields))
             continue
+        # execute() may simply return what the sibling computes: `Ok(self.space_to_reclaim())` - that function is checked by this very loop
+        if nm == 'execute' and sp is not None and not fn_b.calls(r'FileMetadata::len$'):
+            dele = [c for c in fn_b.calls(r'FsCommand::space_to_reclaim$') if 1 in backslice(fn_b, [c.args[0]]).params]
+            oks = aggregates(fn_b, 'result::Result', 'Ok')
+            good_d = bool(dele) and bool(oks) and all(dele[0] in backslice(fn_b, st_['rv']['ops']).calls for _, st_ in oks)
+            for var in arms[0][1]:
+                ctx.check(good_d, rule, '%s|reclaimed-field|%s' % (fn_b.path, var), (dele[0].where() if dele else fn_b.where()), 'execute(%s) returns self.space_to_reclaim() (checked per variant below)' % var,
+                          'execute(%s) does not return the affected file\'s length' % var)
+            continue
         for var, tgt in arms[0][1].items():
             region = dominated_region(fn_b, tgt)
             lens = [c for c in fn_b.calls(r'FileMetadata::len$') if c.bb in region]
